@@ -109,7 +109,8 @@ def uncommit(
                 # first of them would become its basis revision while the
                 # branch is empty.
                 parents.extend(reversed(pending_merges))
-            if branch.supports_tags() and not keep_tags:
+            drop_tags = branch.supports_tags() and not keep_tags
+            if drop_tags and master is not None:
                 # Remove the tags before moving the tips: setting the last
                 # revision clears the branch's cached master branch, and
                 # deleting a tag in a bound branch would then open (and try
@@ -133,6 +134,8 @@ def uncommit(
                 )
             if tree is not None:
                 tree.set_parent_ids(parents)
+            if drop_tags and master is None:
+                remove_tags(branch, graph, old_tip, parents)
     finally:
         for item in reversed(unlockable):
             item.unlock()
